@@ -624,9 +624,9 @@ func genCase(idx int, seed int64, thorough bool) *caseOut {
 	default:
 		var bf builtFile
 		switch g := rng.Intn(10); {
-		case g < 5:
+		case g < 6:
 			bf = buildTreeFile(rng)
-		case g < 8:
+		case g < 9:
 			bf = buildChunkWriterFile(rng)
 		default:
 			bf = buildZlibWriterFile(rng)
@@ -651,7 +651,7 @@ func main() {
 		pprof.StartCPUProfile(f)
 		defer pprof.StopCPUProfile()
 	}
-	nCases := 6000
+	nCases := 5000
 	if r.Thorough {
 		nCases = 400000
 	}
